@@ -335,3 +335,10 @@ func ParallelW(n int, f func(worker, i int)) int {
 
 // Workers is the number of workers ParallelW uses at most.
 func Workers() int { return runtime.GOMAXPROCS(0) }
+
+// Get returns an extra evidence value (nil if unset).
+func (c *Check) Get(k string) interface{} {
+	c.mu.Lock()
+	defer c.mu.Unlock()
+	return c.extra[k]
+}
